@@ -15,6 +15,7 @@ from sa.consteval import ConstEval, NotConstant
 from sa.decoders import cdr_groups_finding, is_cdr_of
 from sa.model import Model
 from sa.paths import Engine, loop_body_paths, show_sv, strip_epoch
+from sa.sveval import CannotEval, Res, ev as sv_ev, path_holds
 from sa.report import Undecided
 
 LEVEL = "other"
@@ -40,108 +41,150 @@ def check(src, rep):
                        "values on '*'. NOT decided: parsing of every well-formed block into one data set per address (behaviour of an index-chasing scanner over all inputs).")
     E = Engine(M)
     node, ps = loop_body_paths(E, fn)
-    item = ("iter", ("p", fn.params[0]), node.lineno)
-    V0 = ("sub", ("f0", item, "values"), ("c", 0))
-    VAL, UNIT = ("f0", V0, "value"), ("f0", V0, "unit")
-    UNIT_NORM = ("ite", UNIT, ("call", ".lower", (UNIT,)), ("c", None))
+    # ---- R1-R3 by tabulation: the per-data-set step is evaluated for every abstract data set (number of values, unit spelling, address class)
+    # with the transmitted number kept symbolic; exactly one path applies and its dictionary store is compared with the specification.
+    try:
+        name_map = ce.eval(ast.parse("obis_name_map", mode="eval").body, {}, "obis_map")
+    except NotConstant as e:
+        raise Undecided(f"obis_map.obis_name_map is not a constant table: {e}")
+    rep.require(isinstance(name_map, dict) and len(name_map) > 10, "obis_name_map is not a dictionary")
+    known = next(k for k in sorted(name_map) if k != "1.0.0")
+    VAL, ADDR = Res("VAL"), Res("ADDR")
+    units = [("V", "float"), ("v", "float"), ("A", "float"), ("var", "float"), ("VAR", "float"), ("varh", "float"), ("Varh", "float"),
+             ("kW", "kilo"), ("KW", "kilo"), ("kw", "kilo"), ("kWh", "kilo"), ("KWH", "kilo"), ("kvar", "kilo"), ("kVAr", "kilo"), ("kvarh", "kilo"), ("kVArh", "kilo"),
+             ("m3", "verbatim"), ("Wh", "verbatim"), ("W", "verbatim"), ("", "verbatim"), (None, "verbatim")]
+    kilo_ok = {Res("int", Res("Mult", Res("float", VAL), 1000)), Res("round", Res("Mult", Res("float", VAL), 1000)), Res("int", Res("Mult", Res("Decimal", VAL), 1000)),
+               Res("int", Res("round", Res("Mult", Res("float", VAL), 1000)))}
+    clock = Res("datetime", *([Res("Add", 2000, Res("int", Res("slice", VAL, 0, 2)))] + [Res("int", Res("slice", VAL, a, a + 2)) for a in (2, 4, 6, 8, 10)]))
     bad = 0
-    n_paths = 0
+    n_cases = 0
     seen_kinds = set()
-    for p in ps:
-        if p.status == "raise":
-            continue
-        lits = {}
-        unknown = []
-        for g, pol, _ in p.guards:
-            gs = _strip_lines(strip_epoch(g))
-            if gs[0] == "cmp" and gs[1] == "Eq" and gs[2] == ("len", ("f0", item, "values"), 0) and gs[3] == ("c", 1):
-                lits["single"] = pol
-            elif gs[0] == "cmp" and gs[1] == "In" and gs[3][0] == "f0" and gs[3][2] == "obis_name_map":
-                lits["known"] = pol
-            elif gs[0] == "cmp" and gs[1] == "In" and gs[3][0] == "tuple" and _is_unit(gs[2], UNIT):
-                units = {x[1] for x in gs[3][1] if x[0] == "c"}
-                if units == FLOAT_UNITS:
-                    lits["float"] = pol
-                elif units == KILO_UNITS:
-                    lits["kilo"] = pol
-                else:
-                    lits[("units", tuple(sorted(units)))] = pol
-            elif gs[0] == "cmp" and gs[1] == "Eq" and gs[3] == ("c", "1.0.0"):
-                lits["clock"] = pol
-            elif gs[0] == "exc":
-                lits["exc"] = True
+    reported = set()
+
+    def vio(rule, tag, text, line, witness):
+        nonlocal bad
+        bad += 1
+        if (rule, tag) not in reported:
+            reported.add((rule, tag))
+            rep.violation(rule, f"dlde.{fn.name}", tag, text, file, line, witness=witness)
+
+    for nvals in (0, 1, 2):
+        for unit, kind in units:
+            for cdr in (known, "250.250.250", "1.0.0"):
+                if cdr == "1.0.0" and unit not in (None, ""):
+                    continue
+                if nvals != 1 and (unit, cdr) != ("kWh", known):
+                    continue
+                item = {"values": [{"unit": unit, "value": VAL}] + [{"unit": "x", "value": Res("VAL2")}] * (nvals - 1) if nvals else [], "address": ADDR}
+
+                def leaf(sv, item=item, cdr=cdr):
+                    t = sv[0]
+                    if t == "iter":
+                        return item
+                    if t == "f0":
+                        if sv[2] == "obis_name_map":
+                            return name_map
+                        base = sv_ev(sv[1], {}, leaf)
+                        if isinstance(base, dict) and sv[2] in base:
+                            return base[sv[2]]
+                        raise CannotEval(f"attribute {sv[2]}")
+                    if t == "g":
+                        try:
+                            return ce.eval(ast.parse(sv[1], mode="eval").body, {}, MOD)
+                        except (NotConstant, SyntaxError):
+                            return Res(sv[1])
+                    if t == "call" and isinstance(sv[1], str):
+                        if sv[1].endswith("from_string"):
+                            return Res("obis", ADDR) if sv_ev(sv[2][-1], {}, leaf) == ADDR else NotImplemented
+                        if sv[1].endswith("to_group_cdr_str"):
+                            return cdr
+                    return NotImplemented
+                desc = f"{nvals} value(s), unit {unit!r}, address C.D.E {cdr}"
+                hits, sym_guard, other = [], None, None
+                for p in ps:
+                    if p.status == "raise":
+                        continue
+                    holds = True
+                    for g, pol, gl in p.guards:
+                        if g[0] == "exc":
+                            holds = False
+                            break
+                        try:
+                            if bool(sv_ev(g, {}, leaf)) != pol:
+                                holds = False
+                                break
+                            if isinstance(sv_ev(g, {}, leaf), Res):
+                                raise CannotEval("symbolic truth value")
+                        except CannotEval as e:
+                            if _mentions_value(g):
+                                sym_guard = (g, gl)
+                            else:
+                                other = str(e)
+                            holds = False
+                            break
+                    if holds:
+                        hits.append(p)
+                if sym_guard is not None and nvals == 1:
+                    vio("R1", "extra-condition", "the conversion of a data set depends on a condition on the transmitted number itself, not only on its (case-folded) unit and the 1.0.0 address: "
+                        "some transmitted forms of a number (e.g. without fractional digits) are converted differently", sym_guard[1], f"{desc}: condition {show_sv(sym_guard[0])[:100]}")
+                    continue
+                if other is not None:
+                    rep.undecide(f"R1 the data-set step tests a condition outside the tabulated domain ({other}) for {desc}")
+                    bad += 1
+                    break
+                n_cases += 1
+                if len(hits) != 1:
+                    rep.undecide(f"R1 {len(hits)} paths of the data-set step apply to {desc}")
+                    bad += 1
+                    break
+                p = hits[0]
+                stores = [e for e in p.effects if e[0] == "setitem"]
+                line = stores[0][-1] if stores else node.lineno
+                if nvals != 1:
+                    if stores:
+                        vio("R3", "multi-valued-decoded", f"a data set with {nvals} values is decoded", line, desc)
+                    continue
+                if len(stores) != 1:
+                    vio("R3", "stores-per-dataset", f"a single-valued data set produces {len(stores)} dictionary entries", node.lineno, desc)
+                    continue
+                try:
+                    key, value = sv_ev(stores[0][2], {}, leaf), sv_ev(stores[0][3], {}, leaf)
+                except CannotEval as e:
+                    rep.undecide(f"R1 stored key/value outside the tabulated domain ({e}) for {desc}")
+                    bad += 1
+                    break
+                want_key = name_map.get(cdr, cdr)
+                if key != want_key:
+                    vio("R3", "naming", "the key is not obis_name_map[C.D.E] (when known) or C.D.E of the data set's address", line, f"{desc}: key {key!r} instead of {want_key!r}")
+                k = "clock" if cdr == "1.0.0" else kind
+                seen_kinds.add(k)
+                if k == "float" and value != Res("float", VAL):
+                    what = "units are compared case-sensitively (or the unit set is not {V, A, var, varh})" if value == VAL else "V/A/var/varh quantities are not stored as float(transmitted number)"
+                    vio("R1", "float-units" if value != VAL else "unit-set", what, line, f"{desc}: stores {value!r}")
+                elif k == "kilo" and value not in kilo_ok:
+                    what = ("units are compared case-sensitively (or the unit set is not {kW, kWh, kvar, kvarh})" if value == VAL else
+                            "kW/kWh/kvar/kvarh quantities are not converted by an idiom of the catalogue (int(float(v) * 1000), round(float(v) * 1000), int(Decimal(v) * 1000))")
+                    vio("R1", "kilo-units" if value != VAL else "unit-set", what, line, f"{desc}: stores {value!r}")
+                elif k == "clock" and value != clock:
+                    vio("R2", "clock-slices", "the clock is not datetime(2000+YY, MM, DD, hh, mm, ss) from the slices [0:2], [2:4], ..., [10:12] of YYMMDDhhmmss", line, f"{desc}: stores {value!r}"[:260])
+                elif k == "verbatim" and value != VAL:
+                    vio("R1", "verbatim", "values with another unit (or none) are not stored verbatim", line, f"{desc}: stores {value!r}")
             else:
-                unknown.append((gs, pol))
-        stores = [e for e in p.effects if e[0] == "setitem"]
-        if lits.get("single") is False:
-            if stores:
-                bad += 1
-                rep.violation("R3", f"dlde.{fn.name}", "multi-valued-decoded", "a data set with several values is decoded", file, node.lineno)
-            continue
-        if len(stores) != 1:
-            bad += 1
-            rep.violation("R3", f"dlde.{fn.name}", "stores-per-dataset", f"a single-valued data set produces {len(stores)} dictionary entries", file, node.lineno)
-            continue
-        n_paths += 1
-        key, value = _strip_lines(strip_epoch(stores[0][2])), _strip_lines(strip_epoch(stores[0][3]))
-        odd_units = [k for k in lits if isinstance(k, tuple)]
-        if odd_units:
-            bad += 1
-            rep.violation("R1", f"dlde.{fn.name}", "unit-set", f"the unit dispatch tests the set {set(odd_units[0][1])}: it is neither {{V, A, var, varh}} nor {{kW, kWh, kvar, kvarh}}", file, stores[0][-1])
-            continue
-        if unknown:
-            bad += 1
-            rep.violation("R1", f"dlde.{fn.name}", "extra-condition", "the conversion of a data set depends on a condition other than its (case-folded) unit and the 1.0.0 address: "
-                          "some transmitted forms of a number (e.g. without fractional digits) are not converted", file, stores[0][-1], witness="; ".join(("" if pol else "not ") + show_sv(g)[:80] for g, pol in unknown))
-            continue
-        # naming
-        cdr_ok = (key[0] == "sub" and key[1][0] == "f0" and key[1][2] == "obis_name_map" and lits.get("known") is True) or (key[0] == "call" and "to_group_cdr_str" in str(key[1]) and lits.get("known") is False)
-        if not cdr_ok:
-            bad += 1
-            rep.violation("R3", f"dlde.{fn.name}", "naming", "the key is not obis_name_map[C.D.E] (when known) or C.D.E of the data set's address", file, stores[0][-1], witness=show_sv(key)[:80])
-        # value by unit class
-        if lits.get("float"):
-            seen_kinds.add("float")
-            if value != ("call", "float", (VAL,)):
-                bad += 1
-                rep.violation("R1", f"dlde.{fn.name}", "float-units", "V/A/var/varh quantities are not stored as float(transmitted number)", file, stores[0][-1], witness=show_sv(value)[:100])
-        elif lits.get("kilo"):
-            seen_kinds.add("kilo")
-            okv = value in (("call", "int", (("op", "Mult", ("call", "float", (VAL,)), ("c", 1000)),)), ("call", "int", (("op", "Mult", ("c", 1000), ("call", "float", (VAL,))),)),
-                            ("call", "round", (("op", "Mult", ("call", "float", (VAL,)), ("c", 1000)),)))
-            if not okv and "Decimal" in show_sv(value) and "1000" in show_sv(value):
-                okv = True
-            if not okv:
-                bad += 1
-                rep.violation("R1", f"dlde.{fn.name}", "kilo-units", "kW/kWh/kvar/kvarh quantities are not converted by an idiom of the catalogue (int(float(v) * 1000), round(float(v) * 1000), int(Decimal(v) * 1000))",
-                              file, stores[0][-1], witness=show_sv(value)[:120])
-        elif lits.get("clock"):
-            seen_kinds.add("clock")
-            if not _clock_ok(value, VAL):
-                bad += 1
-                rep.violation("R2", "dlde._parse_p1_datetime", "clock-slices", "the clock is not datetime(2000+YY, MM, DD, hh, mm, ss) from the slices [0:2], [2:4], ..., [10:12] of YYMMDDhhmmss", file, stores[0][-1],
-                              witness=show_sv(value)[:160])
-        elif lits.get("float") is False and lits.get("kilo") is False and lits.get("clock") is False:
-            seen_kinds.add("verbatim")
-            if value != VAL:
-                bad += 1
-                rep.violation("R1", f"dlde.{fn.name}", "verbatim", "other values are not stored verbatim", file, stores[0][-1], witness=show_sv(value)[:80])
+                continue
+            break
         else:
-            rep.undecide(f"R1 a data-set path is not classified by the unit sets / clock address: {sorted(str(k) for k in lits)}")
+            continue
+        break
+    n_paths = len([p for p in ps if p.status != "raise"])
     if not bad and seen_kinds >= {"float", "kilo", "clock", "verbatim"}:
-        rep.ok("R1", f"{n_paths} data-set paths", "unit dispatch on the case-folded unit only: {V,A,var,varh} -> float(v); {kW,kWh,kvar,kvarh} -> int(float(v)*1000); 1.0.0 -> clock; otherwise verbatim")
+        rep.ok("R1", f"{n_cases} abstract data sets x {n_paths} step paths", "unit dispatch on the case-folded unit only: {V,A,var,varh} -> float(v); {kW,kWh,kvar,kvarh} -> int(float(v)*1000); 1.0.0 -> clock; otherwise verbatim (transmitted number symbolic)")
         rep.ok("R2", "clock", "YYMMDDhhmmss slices [0:2]..[10:12] feed datetime(2000+YY, MM, DD, hh, mm, ss) in this order")
-        rep.ok("R3", "naming", "obis_name_map[C.D.E] under a membership test, else C.D.E; only single-valued data sets are decoded")
-    elif not bad:
-        rep.undecide(f"R1 unit classes found: {sorted(seen_kinds)} (expected float, kilo, clock, verbatim)")
-    # case folding of the unit
-    txt = ast.unparse(fn.node)
-    if ".lower()" not in txt and ".casefold()" not in txt and ".upper()" not in txt:
-        rep.violation("R1", f"dlde.{fn.name}", "unit-case", "units are compared case-sensitively", file, fn.node.lineno)
+        rep.ok("R3", "naming", "obis_name_map[C.D.E] when known, else C.D.E; only single-valued data sets are decoded")
     cg = cdr_groups_finding(M)
     if cg:
         rep.violation("R3", "obis.Obis.to_group_cdr_str", "cde-groups", cg, src.file("obis"), 1)
-    rep.floor("data-set paths", n_paths, 8)
+    rep.floor("data-set step paths", n_paths, 4)
+    rep.floor("abstract data sets tabulated", n_cases, 40)
     # ---------------------------------------------------------------- R4 identification
     I = M.classes.get((MOD, "Ident"))
     rep.require(I is not None, "anchor vanished: dlde.Ident")
@@ -175,27 +218,62 @@ def check(src, rep):
         raise Undecided(f"identification pattern not evaluable: {e}")
     dr = M.funcs.get("dlde.decode_p1_readout")
     rep.require(dr is not None, "anchor vanished: dlde.decode_p1_readout")
-    t = ast.unparse(dr.node)
-    ids_ok = "FIELD_METER_MANUFACTURER_ID" in t and "identification_line.manufacturer_id" in t and "FIELD_METER_TYPE_ID" in t and "identification_line.identification" in t
     dc = M.funcs.get("dlde.decode_p1_readout_content")
-    ids_only_whole = dc is not None and "identification" not in ast.unparse(dc.node) and "identification" not in ast.unparse(fn.node)
+    rep.require(dc is not None, "anchor vanished: dlde.decode_p1_readout_content")
+    try:
+        MAN, TYP = ce.eval(ast.parse("FIELD_METER_MANUFACTURER_ID", mode="eval").body, {}, "obis_map"), ce.eval(ast.parse("FIELD_METER_TYPE_ID", mode="eval").body, {}, "obis_map")
+    except NotConstant as e:
+        raise Undecided(f"obis_map field-name constants: {e}")
+    rd = ("p", dr.params[0])
+    IL = ("f0", rd, "identification_line")
+    dr_paths = [p for p in Engine(M).run(dr) if p.status == "return"]
+    ids_ok = bool(dr_paths)
+    for p in dr_paths:
+        st = {_strip_lines(strip_epoch(e[2])): _strip_lines(strip_epoch(e[3])) for e in p.effects if e[0] == "setitem"}
+        has_type = any(_strip_lines(strip_epoch(g)) == ("cmp", "Is", ("f0", IL, "identification"), ("c", None)) and not pol for g, pol, _ in p.guards)
+        if st.get(("c", MAN)) != ("f0", IL, "manufacturer_id"):
+            ids_ok = False
+        if has_type and st.get(("c", TYP)) != ("f0", IL, "identification"):
+            ids_ok = False
+        if not has_type and ("c", TYP) in st:
+            ids_ok = False
+    dc_paths = [p for p in Engine(M).run(dc) if p.status == "return"]
+    ids_only_whole = not any(e[0] == "setitem" and e[2] in (("c", MAN), ("c", TYP)) for p in dc_paths + ps for e in p.effects)
     if ok4 and ids_ok and ids_only_whole:
         rep.ok("R4", "identification fields", "manufacturer_id = group MANID, identification = group ID; stored under meter_manufacturer_id / meter_type_id only by the whole-readout decoder")
     elif ok4:
         rep.violation("R4", "dlde.decode_p1_readout", "ident-fields", "the identification fields are not stored (only) by the whole-readout decoder from the identification line", file, dr.node.lineno)
+    from sa.cross import include as _inc
+    _inc(rep, src, "C04", {"R5"}, "R4", "the identification line is split by a pattern that accepts exactly the standard's syntax (any number of escape sequences, 1-16 identification characters)")
     # ---------------------------------------------------------------- R5 sibling agreement
     ok5 = True
     pc = M.funcs.get("dlde.parse_p1_readout_content")
     pr = M.funcs.get("dlde.parse_p1_readout")
     rep.require(pc is not None and pr is not None and dc is not None, "anchor vanished: P1 parse/decode functions")
-    if "parse_p1_readout_content(readout.payload)" not in ast.unparse(pr.node).replace(" ", "").replace("\n", ""):
+    def parse_arg(p):
+        """the text handed to the block parser on a path: (source SV of the bytes, decoded how)"""
+        for e in p.effects:
+            if e[0] == "call" and isinstance(e[1], str) and e[1].endswith("parse_data_block") and e[2]:
+                a = _strip_lines(strip_epoch(e[2][0]))
+                if a[0] == "call" and a[1] == ".decode" and a[2][1:] in ((("c", "ascii"),), ()):
+                    return a[2][0]
+                return ("other", a)
+        return None
+
+    worker_lines = range(fn.node.lineno, (fn.node.end_lineno or fn.node.lineno) + 1)
+
+    def reaches_worker(p):
+        return any(e[0] == "loop" and e[2] in worker_lines for e in p.effects)
+    pr_paths = [p for p in Engine(M).run(pr) if p.status == "return"]
+    if not pr_paths or any(parse_arg(p) != ("f0", ("p", pr.params[0]), "payload") for p in pr_paths):
         ok5 = False
         rep.violation("R5", "dlde.parse_p1_readout", "payload", "the whole-readout parser does not hand the readout's payload to the content parser", file, pr.node.lineno)
-    calls_dc = [ast.unparse(n.func) for n in ast.walk(dc.node) if isinstance(n, ast.Call)]
-    calls_dr = [ast.unparse(n.func) for n in ast.walk(dr.node) if isinstance(n, ast.Call)]
-    if not ("parse_p1_readout_content" in calls_dc and fn.name in calls_dc and "parse_p1_readout" in calls_dr and fn.name in calls_dr):
+    shared = bool(dr_paths) and bool(dc_paths) and all(parse_arg(p) == ("f0", rd, "payload") and reaches_worker(p) for p in dr_paths) \
+        and all(parse_arg(p) == ("p", dc.params[0]) and reaches_worker(p) for p in dc_paths)
+    if not shared:
         ok5 = False
-        rep.violation("R5", "dlde", "shared-decoder", "the P1 entry points do not share the parse function and _decode_parsed", file, dc.node.lineno, witness=f"{calls_dc} / {calls_dr}")
+        rep.violation("R5", "dlde", "shared-decoder", "the P1 entry points do not decode the same parse of the same payload bytes with the same per-data-set decoder", file, dc.node.lineno,
+                      witness=f"whole readout parses {[show_sv(parse_arg(p) or ('c', None))[:40] for p in dr_paths]}; content parses {[show_sv(parse_arg(p) or ('c', None))[:40] for p in dc_paths]}")
     try:
         table = ce.class_const("autodecoder", "AutoDecoder", "payload_decoder_functions")
         p1 = [fr for n, fr in table if n == "P1"]
@@ -225,6 +303,15 @@ def check(src, rep):
         rep.ok("R6", "value*unit", "value and unit are the parts before and after the single '*'")
     else:
         rep.violation("R6", "dlde.DataSetValue.parse", "value-unit-split", "a value is not split into (value, unit) at '*'", file, pv.node.lineno)
+
+
+def _mentions_value(sv):
+    """does the SV read the transmitted number (attribute `value` of a data-set value)?"""
+    if isinstance(sv, tuple):
+        if len(sv) >= 3 and sv[0] == "f0" and sv[2] == "value":
+            return True
+        return any(_mentions_value(x) for x in sv if isinstance(x, tuple))
+    return False
 
 
 def _strip_lines(sv):
